@@ -300,6 +300,91 @@ def monitors_stress(o):
     return out
 
 
+def wf_key(sc):
+    return "%s/%s/%s/%d/%d/%d" % (sc["variant"], sc["fault"], sc["side"], sc["mode"], sc["data"],
+                                  1 if sc.get("rd_pend") else 0)
+
+
+def wf_replay(o, chk):
+    return {"how": "harness/overlay/root/zz_verif_c16_wfault_test.go TestVerifC16WFault: established session, `data` "
+                   "application datagrams, then the transport of `side` refuses the next `mode` writes (-1: all) with "
+                   "ECONNREFUSED exactly when that endpoint sends its close_notify reply (fault=reply: the peer "
+                   "application calls Close) / its own close_notify (fault=own: Close) / the ACK of the peer's "
+                   "KeyUpdate, followed by the peer's Close (fault=ack); Read pending = rd_pend; then Read, Read, "
+                   "Write, Handshake, Close, Read, Write are issued",
+            "scenario": o.get("sc"), "observation": {k: v for k, v in o.items() if k != "leak_info"},
+            "rerun": "cd /repo && VERIF_C16_ONLY=%s go1.26 test -tags verif -overlay <overlay> -run '^TestVerifC16WFault$' ."
+                     % wf_key(o["sc"]),
+            "rerun_check": "VERIF_SEED=%d bin/check C16 --tier %s" % (chk.seed, chk.tier)}
+
+
+def monitors_wf(o):
+    """write-fault leg: the property's predicate on one observation -> list of (kind, description)"""
+    out = []
+    sc = o["sc"]
+    p = o.get("panic", "")
+    if p:
+        kind = "leak" if "blocked goroutines remain" in p else ("deadlock" if "deadlock" in p else "panic")
+        out.append((kind, p[:300]))
+        if not (kind == "leak" and o.get("close_x")):
+            return out
+    if not o.get("est"):
+        return out
+    if o.get("leak"):
+        out.append(("leak", "%d goroutine(s) left after Close of both connections (write fault at %s)"
+                    % (o["leak"], sc["fault"])))
+    where = {"reply": "the close_notify reply to the peer's close_notify could not be written",
+             "own": "the close_notify of Close could not be written",
+             "ack": "the ACK of the peer's KeyUpdate could not be written, then the peer closed"}[sc["fault"]]
+    where += " (transport: write udp: connection refused, %s)" % ("persistently" if sc["mode"] < 0 else
+                                                                  "%d write(s)" % sc["mode"])
+    if o.get("close_x") != "ok":
+        out.append(("close-returns", "Close() returned class %s: %s" % (o.get("close_x"), where)))
+    peer_closed = sc["fault"] in ("reply", "ack") and o["delivered"] and o["recv_cn"]
+    if peer_closed or sc["fault"] == "own":
+        what = "the peer's close_notify was received" if peer_closed else "Close was called"
+        kind = "peer-eof" if peer_closed else "unblock"
+        if o["rd_x"] not in CLOSE_CLASS | {"none"}:
+            out.append((kind, "%s, %s: the pending Read returned class %s (%s), not io.EOF / a closed error"
+                        % (what, where, o["rd_x"], (o.get("rd_text") or "")[:80])))
+        if not o["closed_x"]:
+            out.append((kind, "%s, %s: the connection was not closed (pending Read: %s, next Read: %s)"
+                        % (what, where, o["rd_x"], o["rd_aft1"])))
+        for nm in ("rd_aft1", "rd_aft2"):
+            if o.get(nm) and o[nm] not in CLOSE_CLASS:
+                out.append(("after", "%s, %s: a later Read %s" % (what, where, "blocks for ever" if o[nm] == "stuck"
+                                                                   else "returned class " + o[nm])))
+                break
+        if o["wr_aft"] not in CLOSE_CLASS:
+            out.append(("after", "%s, %s: a later Write returned class %s (%s)"
+                        % (what, where, o["wr_aft"], (o.get("wr_text") or "")[:80])))
+        if o.get("hs_aft") == "stuck":
+            out.append(("after", "%s, %s: a later Handshake() blocks for ever" % (what, where)))
+    for nm in ("rd_aft3", "wr_aft3"):
+        if o.get(nm) not in CLOSE_CLASS:
+            out.append(("after", "%s after X's own Close returned class %s (%s)" % (nm, o.get(nm), where)))
+    if o.get("cn_x", 0) > 1:
+        out.append(("cn-twice", "close_notify records on the wire: X=%d" % o["cn_x"]))
+    return out
+
+
+def wf_model_case(o):
+    """write-fault observation -> scenario language of Life/C16Run.v (events 12 / 7 / 14 / 8)"""
+    sc = o["sc"]
+    if o.get("panic") or not o.get("est") or not o.get("failed"):
+        return None
+    own = sc["fault"] == "own"
+    if not own and not (o["delivered"] and o["recv_cn"]):
+        return None
+    evn = {"reply": 12, "own": 7, "ack": 14 if sc["mode"] < 0 else 8}[sc["fault"]]
+    term = "((%s, %s, false, false, true, %s), (%s, false), (%s, 1, %s, 0), (%s, %s), (%s, %s, %s))" % (
+        cN(evn), cbool(o["v13"]), cN(1 if own else 0), cbool(sc["rd_pend"]),
+        clist([cN(code(o["close_x"]))] if own else []), cN(code(o["rd_x"]) if sc["rd_pend"] else 0),
+        cN(o["cn_x"]), cbool(o["closed_x"]),
+        cN(code(o.get("close2_x") or "")), cN(code(o.get("wr_aft") or "")), cN(code(o.get("rd_aft1") or "")))
+    return term, (evn, o["v13"], sc["rd_pend"], sc["mode"] < 0)
+
+
 # ----------------------------------------------------------------- model cases
 
 def model_case(o):
@@ -428,6 +513,8 @@ def run(chk):
                  1800 if thorough else 300))
     legs.append(("stress", "^TestVerifC16Stress$", {"VERIF_C16_ITERS": 3000 if thorough else 60}, False,
                  1800 if thorough else 240))
+    # transport write faults at the lifecycle's own emissions (close_notify reply / own close_notify / ACK)
+    legs.append(("wfault", "^TestVerifC16WFault$", {}, False, 1800 if thorough else 240))
     if thorough:
         legs.append(("e2e-race", "^TestVerifC16E2E$", {"VERIF_C16_REPS": 10}, True, 3000))
         legs.append(("stress-race", "^TestVerifC16Stress$", {"VERIF_C16_ITERS": 2000}, True, 3000))
@@ -463,6 +550,51 @@ def run(chk):
         rows = vlib.read_jsonl(outp)
         vlib.cleanup(outp)
         obs = [r for r in rows if r.get("kind") in ("c16", "stress")]
+        wf = [r for r in rows if r.get("kind") == "c16wf"]
+        for r in wf:
+            for kind, what in monitors_wf(r):
+                found_input = True
+                if ("wf", kind) in reported:
+                    continue
+                reported.add(("wf", kind))
+                rep = wf_replay(r, chk)
+                if r.get("leak_info"):
+                    rep["goroutines"] = r["leak_info"][:3000]
+                chk.finding(SITE_LIFE, {"monitor": kind, "event": "wfault/" + r["sc"]["fault"],
+                                        "variant": r["sc"]["variant"]}, what, rep)
+        if name == "wfault":
+            reach = [r for r in wf if r.get("est") and not r.get("panic") and r.get("failed", 0) > 0 and
+                     (r["sc"]["fault"] == "own" or r.get("recv_cn"))]
+            if rc == 0 and (not wf or len(reach) < len(wf) * 9 // 10):
+                chk.broken("wfault leg: only %d of %d scenarios reached their placement (a refused write at the "
+                           "emission)" % (len(reach), len(wf)), o)
+            chk.count(name, len(wf), [wf_key(r["sc"]) for r in reach],
+                      samples=[{k: v for k, v in r.items() if k != "leak_info"} for r in reach[-2:]])
+            chk.cov["traces_validated_against_impl"] += len(wf)
+            byf = {}
+            for r in reach:
+                byf[r["sc"]["fault"]] = byf.get(r["sc"]["fault"], 0) + 1
+            chk.leg_info(name, faults=byf, refused_writes=sum(r.get("failed", 0) for r in wf),
+                         variants=sorted({r["sc"]["variant"] for r in wf}),
+                         pending_read=sum(1 for r in reach if r["sc"].get("rd_pend")))
+            # correspondence with the model (Life/C16Run.e2e_ok, events 12 / 7 / 14 / 8)
+            mc = [(r, wf_model_case(r)) for r in wf]
+            mc = [(r, m) for r, m in mc if m]
+            bad, err = vlib.coq_mismatches("c16wfault", IMPORTS, "e2e_case", "e2e_ok", [m[0] for _, m in mc])
+            if bad is None:
+                chk.broken("correspondence evaluation (wfault) failed in coqc", err)
+            else:
+                for b in bad[:1]:
+                    r = mc[b][0]
+                    ms = monitors_wf(r)
+                    chk.finding(SITE_LIFE, {"monitor": "model-mismatch", "event": "wfault/" + r["sc"]["fault"],
+                                            "variant": r["sc"]["variant"]},
+                                "result classes / close_notify count differ from the Life/C16Close.v model"
+                                + (": " + ms[0][1] if ms else ""),
+                                dict(wf_replay(r, chk), model_case=mc[b][1][0], correspondence="Life.C16Run.e2e_ok"),
+                                no_input=(not ms and not found_input))
+                chk.count(name + "-model", len(mc), [m[1] for _, m in mc])
+                chk.leg_info(name + "-model", outside_model=len(wf) - len(mc), mismatches=len(bad))
         if name == "access-race":
             runs = [r for r in rows if r.get("kind") == "accrace"]
             blocks = race_blocks(o)
